@@ -121,6 +121,24 @@ example : emissionK ⟨3, 1, 1, 1, 1, 1⟩ [(Kind.sq, [1, 1])] [[2, 2], [3, 3]] 
     | k + 2, 0, _ => simp [at3]
     | k + 2, 1, _ => simp [at3]) (by norm_num)
 
+/-- emission WITHOUT a molecular absorption contribution (a model built from scattering / haze / CIA contributions only; each
+    non-molecular entry of `model_contrib()`): the k-table path `evaluate_emission_ktables` then computes, for whatever
+    k-tables are installed, the documented (unclamped) integral of the cross-section model over the same contributions.
+    Together with `C02.clamp_band` this bounds the difference to the cross-section code path by the licensed band, as in
+    `k_degenerate_emission`; with a single molecular contribution and no other, `k_degenerate_emission` (`nonmol = []`) is
+    the statement for the `Absorption` entry of `model_contrib()`. -/
+theorem k_emission_without_molecules (k : PC ℝ) (contribs : List (Kind × List ℝ)) (dz dens temps : List ℝ) (nu m : ℝ) :
+    emissionKNoMol k contribs dz dens temps nu m = intensityUncut k dz dens temps m ⟨nu, contribs⟩ := by
+  rw [intensityUncut_fold]
+  unfold emissionKNoMol
+  simp only [exp_real, layerTau, dTau, surfTau]
+  congr 3
+  ring
+
+example : emissionKNoMol ⟨3, 1, 1, 1, 1, 1⟩ [(Kind.lin, [2, 3]), (Kind.sq, [1, 1])] [1, 1] [1, 2] [5, 4] 2 (1 : ℝ)
+    = intensityUncut ⟨3, 1, 1, 1, 1, 1⟩ [1, 1] [1, 2] [5, 4] 1 ⟨2, [(Kind.lin, [2, 3]), (Kind.sq, [1, 1])]⟩ :=
+  k_emission_without_molecules _ _ _ _ _ _ _
+
 /-- **linear identification**: the weight-averaged optical depth of the g-points is the optical depth of the
     weight-averaged coefficient -/
 theorem k_avg_linear (sigma3 : List (List ℝ)) (path dens ws : List ℝ) (n l : Nat) :
